@@ -167,7 +167,9 @@ pub struct Scenario {
 
 impl Scenario {
     pub fn addr(&self, node: usize) -> SocketAddr {
-        node_addr(node, self.nodes[node].ipv6)
+        // Indices beyond the real nodes address scripted peers / attackers (same family).
+        let ipv6 = self.nodes.get(node).map(|n| n.ipv6).unwrap_or_else(|| self.nodes[0].ipv6);
+        node_addr(node, ipv6)
     }
     pub fn param(&self, k: &str) -> Option<i64> {
         self.params.get(k).copied()
